@@ -2,7 +2,12 @@ package wire
 
 import (
 	"context"
+	"errors"
+	"net"
 	"sync"
+
+	"github.com/jeroenrinzema/psql-wire/codes"
+	psqlerr "github.com/jeroenrinzema/psql-wire/errors"
 
 	"github.com/jackc/pgx/v5/pgtype"
 )
@@ -227,7 +232,30 @@ func VerifH15() {
 // shared memory: the footprint lemma, replayed under the race detector.
 // ---------------------------------------------------------------------------
 type vIsoTraffic struct {
-	over, unknown, bad, copy bool
+	over, unknown, bad, copy, fail bool
+}
+
+// vSharedErrs are error values shared by the handlers of all connections, one
+// per decorator and each with that decorator outermost; every connection
+// re-decorates each of them with its own values. Decorating is expected to
+// wrap, never to write into the error it is given.
+var vSharedErrs = [6]error{
+	psqlerr.WithCode(errors.New("shared"), codes.Syntax),
+	psqlerr.WithSeverity(errors.New("shared"), psqlerr.LevelError),
+	psqlerr.WithHint(errors.New("shared"), "generic hint"),
+	psqlerr.WithDetail(errors.New("shared"), "generic detail"),
+	psqlerr.WithConstraintName(errors.New("shared"), "generic"),
+	psqlerr.WithSource(errors.New("shared"), "f.go", 1, "fn"),
+}
+
+func vRedecorate(own string) error {
+	_ = psqlerr.WithCode(vSharedErrs[0], codes.Internal)
+	_ = psqlerr.WithSeverity(vSharedErrs[1], psqlerr.LevelFatal)
+	_ = psqlerr.WithHint(vSharedErrs[2], own)
+	d := psqlerr.WithDetail(vSharedErrs[3], own)
+	_ = psqlerr.WithConstraintName(vSharedErrs[4], own)
+	_ = psqlerr.WithSource(vSharedErrs[5], own, 7, own)
+	return psqlerr.WithHint(d, own)
 }
 
 func vFaultTraffic(user, name []byte, t vIsoTraffic) []byte {
@@ -254,6 +282,9 @@ func vFaultTraffic(user, name []byte, t vIsoTraffic) []byte {
 	if t.copy {
 		in = vCat(in, vMsgBytes('Q', vCStr([]byte("c"))), vMsgBytes('d', vCat(user, []byte("\n"))), vMsgBytes('c', nil))
 	}
+	if t.fail {
+		in = vCat(in, vMsgBytes('Q', vCStr(vCat([]byte("e"), user))))
+	}
 	return vCat(in, vMsgBytes('X', nil))
 }
 
@@ -268,8 +299,13 @@ func vIsoServer(tr *[2]vIsoTrace) *Server {
 		me := &tr[RemoteAddress(ctx).(vAddr).id]
 		me.queries = append(me.queries, []byte(query))
 		isCopy := query == "c"
+		isFail := len(query) > 0 && query[0] == 'e'
 		fn := func(ctx context.Context, dw DataWriter, params []Parameter) error {
 			me.execs++
+			if isFail {
+				// the shared sentinels, decorated with this connection's own values
+				return vRedecorate(query[1:])
+			}
 			if isCopy {
 				cr, err := dw.CopyIn(TextFormat)
 				if err != nil {
@@ -360,8 +396,9 @@ func vSameTranscript(a, b []byte) bool {
 func VerifH15f() {
 	name := vSymName()
 	u1, u2 := vSymText(1), vSymText(1)
-	t1 := vIsoTraffic{nondetBool(), nondetBool(), nondetBool(), nondetBool()}
-	t2 := vIsoTraffic{nondetBool(), nondetBool(), nondetBool(), nondetBool()}
+	t1 := vIsoTraffic{over: nondetBool(), bad: nondetBool(), copy: nondetBool(), fail: nondetBool()}
+	t2 := vIsoTraffic{over: nondetBool(), bad: nondetBool(), copy: nondetBool(), fail: nondetBool()}
+	t1.unknown, t2.unknown = t1.over, t2.over // (the two unusual message kinds come together)
 	in1, in2 := vFaultTraffic(u1, name, t1), vFaultTraffic(u2, name, t2)
 
 	var shared [2]vIsoTrace
@@ -411,4 +448,79 @@ func VerifH15f() {
 	if t1.bad && t2.bad {
 		vReach("both-discard-until-sync")
 	}
+	if t1.fail && t2.fail {
+		vReach("both-decorate-a-shared-error")
+	}
+}
+
+// ---------------------------------------------------------------------------
+// H15s — the accept loop itself (C15): Server.Serve on a listener that hands
+// out two connections (different users, one simple query each) and is then
+// closed. The engine runs each goroutine the loop starts under an origin of
+// its own: nothing written by the loop, or for one connection, is touched for
+// another connection without synchronisation; each connection is served as
+// its own user. Natively the same Serve runs under the race detector.
+// ---------------------------------------------------------------------------
+type vListener2 struct {
+	conns []net.Conn
+	next  int
+}
+
+func (l *vListener2) Accept() (net.Conn, error) {
+	if l.next < len(l.conns) {
+		c := l.conns[l.next]
+		l.next++
+		return c, nil
+	}
+	return nil, net.ErrClosed
+}
+func (l *vListener2) Close() error   { return nil }
+func (l *vListener2) Addr() net.Addr { return vAddr{} }
+
+func VerifH15s() {
+	u1, u2 := vSymText(1), vSymText(1)
+	var trace [2]vIsoTrace
+	srv := vIsoServer(&trace)
+	traffic := func(u []byte) []byte {
+		return vCat(vStartup(vKV([]byte("user"), u)), vMsgBytes('Q', vCStr([]byte("q"))), vMsgBytes('X', nil))
+	}
+	c1, c2 := vNewConn(traffic(u1)), vNewConn(traffic(u2))
+	c2.id = 1
+	l := &vListener2{conns: []net.Conn{c1, c2}}
+	if !vSymbolic() {
+		c1.doneCh, c2.doneCh = make(chan struct{}), make(chan struct{})
+	}
+	if vRaceMode() {
+		srv.Serve(l) //nolint
+		c1.vAwaitClosed()
+		c2.vAwaitClosed()
+		return
+	}
+	vFootBegin()
+	vOrigin("accept-loop")
+	err := srv.Serve(l)
+	vOrigin("")
+	vFootReport("no-unsynchronised-shared-access", "KF-C15-1")
+	// (natively the connections are served by goroutines of their own)
+	c1.vAwaitClosed()
+	c2.vAwaitClosed()
+	vAssert("serve-returns-nil-when-the-listener-is-closed", err == nil)
+	check := func(label string, out []byte, user []byte) {
+		msgs, _ := vFrames(out)
+		k := 0
+		for _, m := range msgs {
+			if m.typ == 'S' {
+				e := vCString(m.body, 0)
+				if string(m.body[:e-1]) == "session_authorization" {
+					k++
+					vAssert(label+"-own-user", vEqBytes(m.body[e:len(m.body)-1], user))
+				}
+			}
+		}
+		vAssert(label+"-served-once", k == 1 && vWireOK(out) && vCount(vTypes(out), 'C') == 1)
+	}
+	check("first-connection", c1.out, u1)
+	check("second-connection", c2.out, u2)
+	vAssert("each-connection-parsed-its-own-query", len(trace[0].queries) == 1 && len(trace[1].queries) == 1)
+	vReach("two-connections-accepted")
 }
